@@ -17,6 +17,10 @@ for mp in sorted(glob.glob("/verif/seeded/*/meta.json")):
     q = m.get("runs", {}).get("quick", {}); t = m.get("runs", {}).get("thorough", {})
     cq = q.get("caught_by", []); ct = [p for p in t.get("caught_by", []) if p not in cq]
     own = m["property"]
+    if m.get("harmless"):
+        al = q.get("caught_by", [])
+        rows.append("| %s | behaviour-preserving rewrite (suite passes: %s) | %s | %s | - | see DESIGN.md 11.5 |" % (m["id"], "yes" if m.get("confirmed") else "NO", "no alarm (correct)" if not al else "FALSE ALARM", " ".join(al) or "-"))
+        continue
     if m.get("harmless_after"):
         rows.append("| %s | no longer breaks the property after %s (harmless-rewrite control) | no alarm (correct) | - | - | %s |" % (m["id"], m["harmless_after"], note[:160].replace("|", "/")))
         continue
